@@ -177,6 +177,8 @@ def main():
     for ri, r in enumerate(runs):
         cfg = r.get('cfg', 'asan')
         try:
+            for pre in spec.get('prebuild', []):
+                build_check(cid, pre)
             exe = build_check(cid, cfg)
         except BuildError as e:
             print('HARNESS-BUILD-FAILURE', e)
@@ -186,6 +188,7 @@ def main():
         os.makedirs(out)
         env = dict(os.environ)
         env.update(r.get('env', {}))
+        env['VERIF_BUILD_DIR'] = BUILD
         remaining = max(30.0, deadline - (time.time() - t0))
         p = subprocess.run([exe, '--tier', tier, '--out', out, '--deadline', '%.0f' % remaining], env=env, stdout=subprocess.PIPE, stderr=subprocess.PIPE, text=True)
         sys.stdout.write(p.stdout)
